@@ -130,6 +130,12 @@ void LowMemoryRescaledHmmLikelihood::computeForward_()
   double a;
   logLik_ = 0;
   size_t offset = 0;
+  if (maxSize_ == 1)
+  {
+    // The scale of the first site already fills the buffer:
+    logLik_ += lScales[0];
+    offset = 1;
+  }
   greater<double> cmp;
   for (size_t i = 1; i < nbSites_; i++)
   {
